@@ -356,6 +356,7 @@ func (ex *Exec) loop(ch Chooser) {
 	if ex.res.Blind {
 		return
 	}
+	finishing := false
 	for ex.res.Violation == nil {
 		ex.checkUnsolicited()
 		ex.checkQuiescent()
@@ -366,16 +367,24 @@ func (ex *Exec) loop(ch Chooser) {
 		acts := ex.enabled()
 		if ex.allDone() {
 			ex.res.Terminal = true
-			ch.Choose(node, nil)
+			if !finishing {
+				ch.Choose(node, nil)
+			}
 			return
 		}
 		if len(acts) == 0 {
 			ex.fail("no scheduler action is enabled although not every worker has finished (a queued worker can never be woken)", true)
 			return
 		}
-		i := ch.Choose(node, acts)
-		if i < 0 || i >= len(acts) {
-			return
+		// Once the chooser declines, the execution is still finished under scheduler control (first enabled action):
+		// a free-running tail could let a scripted bad Unlock hit a key somebody holds, which is outside the property.
+		i := 0
+		if !finishing {
+			i = ch.Choose(node, acts)
+			if i < 0 || i >= len(acts) {
+				finishing = true
+				i = 0
+			}
 		}
 		a := acts[i]
 		ex.res.Actions = append(ex.res.Actions, a.String())
@@ -385,7 +394,9 @@ func (ex *Exec) loop(ch Chooser) {
 		if ex.res.Violation != nil {
 			return
 		}
-		ch.Observe(node, a, outcome, nondet)
+		if !finishing {
+			ch.Observe(node, a, outcome, nondet)
+		}
 	}
 }
 
